@@ -50,6 +50,67 @@ static std::string judgeLattice(const Manifold& r, uint64_t want, int N) {
   return "";
 }
 
+// ---- classification of a failing lattice case: does a result mesh that served as OPERAND carry a zero-volume sheet?
+// The boundary of a voxel set has an exact area (number of exposed unit faces); a result mesh whose surface area
+// exceeds it has triangles that bound nothing - two coincident opposite sheets left over from coplanar faces of an
+// earlier operation.  Volume and winding of such a mesh are still right (it denotes the correct solid), but it is
+// not an ordinary input for the next Boolean.  Failing cases with such an operand are one known finding; failing
+// cases whose operands are clean meshes stay individually reported.
+static int voxBoundaryFaces(uint64_t m, int N) {
+  auto bit = [&](int x, int y, int z) { return (x < 0 || y < 0 || z < 0 || x >= N || y >= N || z >= N) ? 0 : int((m >> ((x * N + y) * N + z)) & 1); };
+  int f = 0;
+  for (int x = 0; x < N; ++x)
+    for (int y = 0; y < N; ++y)
+      for (int z = 0; z < N; ++z)
+        if (bit(x, y, z)) f += !bit(x - 1, y, z) + !bit(x + 1, y, z) + !bit(x, y - 1, z) + !bit(x, y + 1, z) + !bit(x, y, z - 1) + !bit(x, y, z + 1);
+  return f;
+}
+static bool carriesSheet(const Manifold& operand, uint64_t mask, int N) {
+  if (operand.Status() != Manifold::Error::NoError) return false;
+  return operand.SurfaceArea() > voxBoundaryFaces(mask, N) + 1e-9;
+}
+// A vertex of a result mesh that is not a corner of the voxel solid (it lies inside a flat face, inside a straight
+// edge, or off the lattice): the mesh is a non-minimal triangulation of its solid.
+static bool hasNonCornerVertex(const Manifold& operand, uint64_t m, int N) {
+  if (operand.Status() != Manifold::Error::NoError) return false;
+  auto bit = [&](int x, int y, int z) { return (x < 0 || y < 0 || z < 0 || x >= N || y >= N || z >= N) ? 0 : int((m >> ((x * N + y) * N + z)) & 1); };
+  MeshGL64 g = operand.GetMeshGL64();
+  for (size_t v = 0; v < (size_t)g.NumVert(); ++v) {
+    double px = g.vertProperties[v * g.numProp], py = g.vertProperties[v * g.numProp + 1], pz = g.vertProperties[v * g.numProp + 2];
+    int x = (int)std::lround(px), y = (int)std::lround(py), z = (int)std::lround(pz);
+    if (px != x || py != y || pz != z) return true;  // off the lattice
+    // occupancy of the 8 voxels around (x,y,z): o[dx][dy][dz], d = 0 -> the voxel on the negative side
+    int o[2][2][2];
+    for (int a = 0; a < 2; ++a)
+      for (int b = 0; b < 2; ++b)
+        for (int c2 = 0; c2 < 2; ++c2) o[a][b][c2] = bit(x - 1 + a, y - 1 + b, z - 1 + c2);
+    bool symX = true, symY = true, symZ = true;
+    for (int a = 0; a < 2; ++a)
+      for (int b = 0; b < 2; ++b) {
+        symX = symX && o[0][a][b] == o[1][a][b];
+        symY = symY && o[a][0][b] == o[a][1][b];
+        symZ = symZ && o[a][b][0] == o[a][b][1];
+      }
+    if (symX || symY || symZ) return true;  // the solid looks the same on both sides along an axis: not a corner
+  }
+  return false;
+}
+// key class of a failing lattice case, from its result-mesh operands (pairs of mesh and voxel mask)
+static std::string latticeKeyFor(const std::vector<std::pair<Manifold, uint64_t>>& resultOperands, int N, const std::string& prog, std::string& note) {
+  for (auto& o : resultOperands)
+    if (carriesSheet(o.first, o.second, N)) {
+      note = " [a result mesh used as operand carries a zero-volume sheet]";
+      return "lattice-sheet-operand:" + prog;
+    }
+  for (auto& o : resultOperands)
+    if (hasNonCornerVertex(o.first, o.second, N)) {
+      note = " [a result mesh used as operand has a vertex that is not a corner of its solid]";
+      return "lattice-nonminimal-operand:" + prog;
+    }
+  note = "";
+  return "lattice:" + prog;
+}
+
 // ---- general position family
 struct Leaf {
   std::string name;
@@ -286,6 +347,7 @@ int main(int argc, char** argv) {
     static const int TS[3][3] = {{0, 0, 1}, {1, 1, 0}, {1, 1, 1}};
     const int nt = thorough ? 3 : 2;
     std::vector<int> radix = {nb, nb, (int)cs.size(), (int)ds.size(), 27, nt, 2};
+    if (thorough) R.limitNextPhase(0.3);  // 86 M programs: must not starve the BFS, depth-3 and general-position phases behind it
     R.phase("lattice-xf", product(radix), 54,
             [&](uint64_t idx, Ctx& c) {
               auto d = digits(idx, radix);
@@ -319,10 +381,19 @@ int main(int argc, char** argv) {
               uint64_t h = mix64(want) ^ canonGeomHash(r.GetMeshGL64());
               c.distinct(h);
               if (want != 0 && want != m) c.nontrivial(h);
-              if (!why.empty()) c.viol("lattice:" + prog, prog, why);
+              if (!why.empty()) {
+                // classify: the translated intermediate ((A o1 B) o2 C), evaluated on its own
+                Manifold in1 = boxManifold(A).Boolean(boxManifold(B), o1);
+                Manifold in2 = in1.Boolean(boxManifold(C), o2);
+                uint64_t m1 = voxOp(voxMask(A, N), voxMask(B, N), o1), m2 = voxOp(m1, voxMask(C, N), o2);
+                std::string note;
+                std::string key = latticeKeyFor({{in1, m1}, {in2, m2}}, N, prog, note);
+                if (key.rfind("lattice:", 0) != 0) c.count("violations_with_degenerate_operand");
+                c.viol(key, prog, why + note);
+              }
               if (idx % 500009 == 0) c.sample(prog);
             },
-            {"transitions"}, 23);
+            {"transitions", "violations_with_degenerate_operand"}, 23);
   }
 
   // ---------- phase lattice-bfs: breadth-first over (voxel set, canonical mesh) states:
@@ -369,12 +440,29 @@ int main(int argc, char** argv) {
       }
       return p;
     };
+    // does any proper prefix of the program (the result meshes that were fed back as operands) carry a sheet?
+    auto bfsKey = [&](const std::vector<int>& p, const std::string& str, std::string& note) {
+      std::vector<std::pair<Manifold, uint64_t>> ops;
+      for (size_t len = 3; len < p.size(); len += 2) {
+        std::vector<int> q(p.begin(), p.begin() + len);
+        uint64_t mk;
+        std::string st;
+        Manifold m = build(q, mk, st);
+        ops.push_back({m, mk});
+      }
+      return latticeKeyFor(ops, N, str, note);
+    };
     R.replayOnly("lattice-prog", [&](uint64_t idx, Ctx& c) {
       uint64_t want;
       std::string str;
-      Manifold r = build(decode(idx), want, str);
+      auto p = decode(idx);
+      Manifold r = build(p, want, str);
       std::string why = judgeLattice(r, want, N);
-      if (!why.empty()) c.viol("lattice:" + str, str, why);
+      std::string note;
+      if (!why.empty()) {
+        std::string key = bfsKey(p, str, note);
+        c.viol(key, str, why + note);
+      }
     });
     std::vector<St> frontier;
     for (int i = 0; i < nb; ++i) frontier.push_back({{i}});
@@ -406,7 +494,10 @@ int main(int argc, char** argv) {
             std::string why = judgeLattice(r, want, N);
             c.count("transitions");
             if (!why.empty()) {
-              c.violAt("lattice-prog", encode(p), "lattice:" + str, str, why);
+              std::string note;
+              std::string key = bfsKey(p, str, note);
+              if (key.rfind("lattice:", 0) != 0) c.count("violations_with_degenerate_operand");
+              c.violAt("lattice-prog", encode(p), key, str, why + note);
               return;  // violating states are not expanded
             }
             uint64_t h = mix64(want) ^ canonGeomHash(r.GetMeshGL64());
@@ -417,7 +508,7 @@ int main(int argc, char** argv) {
               if (idx % 50 == 0) c.sample(str);
             }
           },
-          {"transitions"});
+          {"transitions", "violations_with_degenerate_operand"});
       std::vector<St> next;
       (void)lines;
       for (auto& ht : R.minTags()) {
@@ -442,6 +533,7 @@ int main(int argc, char** argv) {
     auto boxes = allBoxes(N);
     const int nb = (int)boxes.size();
     std::vector<int> radix = {nb, nb, nb, nb, 3, 3, 3, 2};
+    R.limitNextPhase(0.8);
     R.phase("lattice-d3", product(radix), 54,
             [&](uint64_t idx, Ctx& c) {
               auto d = digits(idx, radix);
@@ -468,10 +560,19 @@ int main(int argc, char** argv) {
               uint64_t h = mix64(want) ^ canonGeomHash(r.GetMeshGL64());
               c.distinct(h);
               if (want != 0) c.nontrivial(h);
-              if (!why.empty()) c.viol("lattice:" + prog, prog, why);
+              if (!why.empty()) {
+                Manifold ab = boxManifold(A).Boolean(boxManifold(B), o1);
+                std::vector<std::pair<Manifold, uint64_t>> ops = {{ab, voxOp(ma, mb, o1)}};
+                if (chain) ops.push_back({ab.Boolean(boxManifold(C), o2), voxOp(voxOp(ma, mb, o1), mc, o2)});
+                else ops.push_back({boxManifold(C).Boolean(boxManifold(D), o2), voxOp(mc, md, o2)});
+                std::string note;
+                std::string key = latticeKeyFor(ops, N, prog, note);
+                if (key.rfind("lattice:", 0) != 0) c.count("violations_with_degenerate_operand");
+                c.viol(key, prog, why + note);
+              }
               if (idx % 3000017 == 0) c.sample(prog);
             },
-            {"transitions"}, 24);
+            {"transitions", "violations_with_degenerate_operand"}, 24);
   }
 
   // ---------- general position: ordered pairs (all ops, Split, inclusion-exclusion)
